@@ -40,6 +40,23 @@ Theorem c05_ttl_from_accept_refuted :
 Proof. exact ttl_from_accept_refuted. Qed.
 Print Assumptions c05_ttl_from_accept_refuted.
 
+(* which TTL rules are right: ANY rule under which the stored entry outlives the nonce's freshness
+   window (the entry is still visible at every instant at which the nonce is not yet stale, given
+   that the database keeps expiry instants in whole seconds, rounded down) takes the model's
+   decisions at every instant; the repaired rule is one; a rule that measures the remaining window
+   from the nonce and rounds that DURATION up to a full second is not, and a repeat in the last
+   fraction of a second of the window is accepted *)
+Theorem c05_any_covering_ttl_refines : forall ttl E rs, ttl_covers ttl -> 0 < E -> forall bst nst,
+  brel E bst nst -> brun ttl E bst rs = nrun E nst rs.
+Proof. exact brun_eq_nrun_gen. Qed.
+Print Assumptions c05_any_covering_ttl_refines.
+Theorem c05_ttl_round_up_refuted :
+  brun ttl_round_up E15 [] ttl_witness_round = [true; true] /\
+  nrun E15 [] ttl_witness_round = [true; false] /\
+  brun ttl_cover_nonce E15 [] ttl_witness_round = [true; false] /\
+  ~ ttl_covers ttl_round_up.
+Proof. exact ttl_round_up_refuted. Qed.
+
 (* racing duplicates under optimistic transactions: any interleaving, at most one accepted *)
 Theorem c05_race : forall n evs v, all_begin_n n evs ->
   (count_accept (occ_run {| oc_val := v; oc_ver := 0 |} [] evs) <= 1)%nat.
